@@ -255,3 +255,23 @@ Proof.
   - destruct d; reflexivity.
   - rewrite HM, HF. reflexivity.
 Qed.
+
+(* ------------------------------------------------------------------ partially keyed inputs: the outer step keeps every row *)
+Lemma pouter_rows d1 d2 f1 f2 :
+  exists m rows, fst (pouter (Some d1, f1) (Some d2, f2)) = Some (m, rows) /\
+    (forall r, In r (snd (pmul d1 d2)) -> In r rows) /\
+    (f2 <> [] -> forall r, In r (panti d1 d2) -> In (setdefs f2 r) rows) /\
+    (f1 <> [] -> forall r, In r (panti d2 d1) -> In (setdefs f1 r) rows).
+Proof.
+  unfold pouter. simpl. do 2 eexists. split; [reflexivity|]. repeat split.
+  - intros r I. apply in_or_app. left. exact I.
+  - intros N r I. apply in_or_app. right. apply in_or_app. right. destruct f2; [congruence|]. apply in_map. exact I.
+  - intros N r I. apply in_or_app. right. apply in_or_app. left. destruct f1; [congruence|]. apply in_map. exact I.
+Qed.
+Lemma panti_or_matched d1 d2 r : In r (snd d1) ->
+  In r (panti d1 d2) \/ exists r2, In r2 (snd d2) /\ kmatch (fst d1) (fst d2) (fst r) (fst r2) = true.
+Proof.
+  intros I. unfold panti. destruct (existsb (fun r2 => kmatch (fst d1) (fst d2) (fst r) (fst r2)) (snd d2)) eqn:E.
+  - right. apply existsb_exists in E. exact E.
+  - left. apply filter_In. split; auto. rewrite E. reflexivity.
+Qed.
